@@ -395,8 +395,9 @@ def gen_genbank(rng, n):
             ops.append({"op": "multi_record", "records": recs, "medium": rng.choice(MEDIA)})
         elif r < 0.98:
             ops.append({"op": "typed_locus", "name": rng.choice(["AB000001", "seq", "NC_000913.3"]), "length": rng.choice([1, 1234, 4641652]),
-                        "mol_type": rng.choice(["DNA", "mRNA", "ss-RNA", "Protein"]), "circular": rng.random() < 0.5,
-                        "division": rng.choice(["BCT", "PRI", "SYN"]), "date": rng.choice(["01-JAN-2000", "27-SEP-2026"]), "medium": rng.choice(MEDIA)})
+                        "mol_type": rng.choice(["DNA", "mRNA", "ss-RNA", "Protein", None]), "circular": rng.random() < 0.5,
+                        "division": rng.choice(["BCT", "PRI", "SYN", None]), "date": rng.choice(["01-JAN-2000", "27-SEP-2026", None]),
+                        "medium": rng.choice(MEDIA)})  # None: the documented optional argument is left out
             size += 1
         else:
             ops.append({"op": "bad", "what": rng.choice(["empty_name", "not_tuple"])})
@@ -468,6 +469,12 @@ def gen_general(rng, n):
         elif suffix not in (".gb", ".gbk", ".gp"):
             k = rng.randint(1, 4)
             ops.append({"op": "save_load_many", "suffix": suffix, "kind": kind, "names": [f"s{i}" for i in range(k)],
+                        "seqs": [gen_seq(rng, kind, 1, 150) for _ in range(k)]})
+        else:
+            # save_sequences() is not implemented for GenBank; a multi-record file written record by record is
+            # what load_sequences() documents to read (entries keyed by their DEFINITION)
+            k = rng.randint(1, 3)
+            ops.append({"op": "load_many_genbank", "suffix": suffix, "kind": kind, "names": [f"record {i}" for i in range(k)],
                         "seqs": [gen_seq(rng, kind, 1, 150) for _ in range(k)]})
     if not ops:
         ops.append({"op": "save_load_one", "suffix": ".fasta", "kind": "nuc", "seq": "ACGT"})
@@ -1509,7 +1516,12 @@ class GenBankSim(Base):
 
         self.drop_duplicates("LOCUS")
         args = (op["name"], op["length"], op["mol_type"], op["circular"], op["division"], op["date"])
-        st, v = call(gb.set_locus, self.file, *args)
+        kwargs = {k: op[k] for k in ("mol_type", "division", "date") if op[k] is not None}
+        if op["circular"] or op["date"] is not None:
+            kwargs["is_circular"] = op["circular"]
+        if len(kwargs) < 4:
+            self.res.stats["probe:locus-with-defaults"] += 1
+        st, v = call(gb.set_locus, self.file, op["name"], op["length"], **kwargs)
         if st == "exc":
             self.fail("typed:set_locus-raised", got=exc_name(v), msg=str(v)[:300])
         self.resync()
@@ -1797,6 +1809,33 @@ class GeneralSim(Base):
             self.fail("general:load_sequence-raised", suffix=op["suffix"], got=exc_name(back), msg=str(back)[:200])
         if str(back) != op["seq"]:
             self.fail("general:sequence-changed", suffix=op["suffix"], got=str(back)[:80], expected=op["seq"][:80])
+        if op["suffix"] in (".gb", ".gbk", ".gp") and type(back) is not type(seq):
+            # the GenBank family names the sequence type by its suffix (FASTA has to guess it from the letters)
+            self.fail("general:sequence-type-changed", suffix=op["suffix"], got=type(back).__name__, expected=type(seq).__name__)
+        self.mutations += 1
+        self.readbacks += 1
+        return "ok"
+
+    def op_load_many_genbank(self, op):
+        from biotite.sequence.io import genbank as gb
+        from biotite.sequence.io import general
+
+        p = os.path.join(self.dir(), "records" + op["suffix"])
+        seqs = [self.make_seq(op["kind"], s) for s in op["seqs"]]
+        with open(p, "w") as fh:
+            for name, seq in zip(op["names"], seqs):
+                f = gb.GenBankFile()
+                f.set_field("DEFINITION", [name])
+                gb.set_sequence(f, seq)
+                f.write(fh)
+        st, back = call(general.load_sequences, p)
+        if st == "exc":
+            self.fail("general:load_sequences-raised", suffix=op["suffix"], got=exc_name(back), msg=str(back)[:200])
+        got = [(k, str(s), type(s).__name__) for k, s in back.items()]
+        exp = [(n, s, type(q).__name__) for n, s, q in zip(op["names"], op["seqs"], seqs)]
+        if got != exp:
+            self.fail("general:entries-changed", suffix=op["suffix"], family="genbank",
+                      got=[(k, s[:30], t) for k, s, t in got], expected=[(k, s[:30], t) for k, s, t in exp])
         self.mutations += 1
         self.readbacks += 1
         return "ok"
